@@ -92,3 +92,14 @@ def run_unit(u, tier, seed, registry, case=None):
         return {'unit': u.uid, 'bounded': b, 'errors': errs, 'obligations': [], 'trusted': [], 'sources': {},
                 'assumptions': []}
     raise TypeError(u)
+
+
+def share(unit, prop, name=None):
+    """the same contract unit claimed by another property that depends on the same function (re-verified there, its
+    obligations are listed under that property's id)"""
+    import copy
+    v = copy.copy(unit)
+    v.prop = prop
+    if name:
+        v.name = name
+    return v
